@@ -472,8 +472,8 @@ func c04Housekeeping(r *vlib.Run) {
 		var pmu sync.Mutex
 		delay := []int{25, 60, 8, 120}[i%4]
 		cmd := vlib.Cmd{Path: r.Bin("dtail"), Dir: home, Watchdog: 120 * time.Second,
-			Args: []string{"--cfg", "none", "--logger", "stdout", "--logLevel", "error", "--noColor", "--shutdownAfter", "10", "--files", path},
-			Env:  []string{"HOME=" + home, fmt.Sprintf("VERIF_POINTS=fs.eof=sleep(%d)", delay)},
+			Args:    []string{"--cfg", "none", "--logger", "stdout", "--logLevel", "error", "--noColor", "--shutdownAfter", "10", "--files", path},
+			Env:     []string{"HOME=" + home, fmt.Sprintf("VERIF_POINTS=fs.eof=sleep(%d)", delay)},
 			OnStart: func(p int) { pmu.Lock(); pid = p; pmu.Unlock() }}
 		var expected []string
 		var wg sync.WaitGroup
